@@ -300,6 +300,7 @@ package spine
 //@   let CBS = ite(has(r.responseMsgCallback, *REF), r.responseMsgCallback[*REF], nil)
 //@   let RCBS = r.resultCallbacks
 //@   ensures[C14] rejects-malformed: (result != nil) <==> !ok
+//@   ensures[C01] error-number: result != nil ==> result.ErrorNumber != model.ErrorNumberTypeNoError
 //@   ensures[C14] silent: !fires ==> spawnn == old(spawnn)
 //@   ensures[C14] fires-count: fires ==> spawnn == old(spawnn) + len(CBS) + len(RCBS)
 //@   ensures[C14] fires-response: fires ==> forall d int :: old(spawnn) <= d && d < old(spawnn) + len(CBS) ==> spawnfn[d] == old(CBS[d - old(spawnn)]) && spawnarg(d, 0, api.ResponseMessage).MsgCounterReference == old(*REF) && spawnarg(d, 0, api.ResponseMessage).FeatureRemote == old(message.FeatureRemote) && spawnarg(d, 0, api.ResponseMessage).Data.(*model.ResultDataType) == old(message.Cmd.ResultData)
@@ -312,6 +313,7 @@ package spine
 //@   let REF = message.RequestHeader.MsgCounterReference
 //@   let CBS = ite(message.RequestHeader != nil && message.RequestHeader.MsgCounterReference != nil && has(r.responseMsgCallback, *REF), r.responseMsgCallback[*REF], nil)
 //@   ensures[C14] rejected-silent: result != nil ==> spawnn == old(spawnn) && evn == old(evn)
+//@   ensures[C01] error-number: result != nil ==> result.ErrorNumber != model.ErrorNumberTypeNoError
 //@   ensures[C14] rejected-keeps-registration: result != nil ==> forall k model.MsgCounterType :: has(r.responseMsgCallback, k) == old(has(r.responseMsgCallback, k)) && r.responseMsgCallback[k] == old(r.responseMsgCallback[k])
 //@   define HE = methodid("(github.com/enbility/spine-go/api.EventHandlerInterface).HandleEvent")
 //@   ensures[C14] accepted-fires: result == nil ==> spawnn - len(CBS) >= old(spawnn) && at(processResponseMsgCallbacks, spawnn) == spawnn - len(CBS) && forall d int :: spawnn - len(CBS) <= d && d < spawnn ==> spawnfn[d] == old(CBS[d - at(processResponseMsgCallbacks, spawnn)]) && spawnarg(d, 0, api.ResponseMessage).MsgCounterReference == old(*REF) && spawnarg(d, 0, api.ResponseMessage).FeatureRemote == old(message.FeatureRemote) && spawnarg(d, 0, api.ResponseMessage).Data == cmdValue(old(message.Cmd))
@@ -480,7 +482,8 @@ package spine
 //@   let CLS = message.CmdClassifier
 //@   define OK = sendfails == old(sendfails)
 //@   define ANS(k) = answers(S, k, message.RequestHeader, self.Address())
-//@   ensures invoked: hmn == old(hmn) + 1 && sendfails >= old(sendfails)
+//@   defines[hmn] hmn == old(hmn) + 1
+//@   ensures fails-counted: sendfails >= old(sendfails)
 //@   ensures others: forall s any :: s != S ==> rn[s] == old(rn)[s]
 //@   ensures older: forall k int :: k < K ==> rcls[S][k] == old(rcls)[S][k] && rerr[S][k] == old(rerr)[S][k]
 //@   ensures rejected-silent: result != nil ==> rn[S] == K && result.ErrorNumber != model.ErrorNumberTypeNoError
@@ -555,3 +558,23 @@ package spine
 //@   ensures[C01] others: forall s any :: s != S ==> rn[s] == old(rn)[s]
 //@   ensures[C01] older: forall k int :: k < K ==> rcls[S][k] == old(rcls)[S][k] && rerr[S][k] == old(rerr)[S][k]
 //@   modifies @RESP, @PUBLISH, world, held, sendfails
+
+// write approval (details: C12). No response is sent while a write is pending.
+//@ func (*FeatureLocal).addPendingApproval
+//@   requires r != nil && msg != nil && r.Feature != nil
+//@   ensures[C01,C12] no-response: respSame && sendfails == old(sendfails)
+//@   modifies map(gomap[string]map[model.MsgCounterType]*time.Timer), map(gomap[model.MsgCounterType]*time.Timer), timers, held
+
+//@ func (*FeatureLocal).processWriteApprovalCallbacks
+//@   requires r != nil
+//@   let L0 = r.writeApprovalCallbacks
+//@   ensures[C12] presented-once-each: spawnn == old(spawnn) + len(L0) && forall d int :: old(spawnn) <= d && d < spawnn ==> spawnfn[d] == old(L0[d - old(spawnn)]) && spawnarg(d, 0, *api.Message) == msg
+//@   ensures[C01,C12] no-response: respSame && sendfails == old(sendfails)
+//@   modifies held, spawn
+//@   loop 0 invariant count: spawnn == pre(spawnn) + $k
+//@   loop 0 invariant each: forall d int :: pre(spawnn) <= d && d < spawnn ==> spawnfn[d] == $s[d - pre(spawnn)] && spawnarg(d, 0, *api.Message) == msg
+//@   loop 0 invariant older: forall d int :: d < pre(spawnn) ==> spawnfn[d] == pre(spawnfn)[d]
+
+//@ func[C01] (*FeatureLocal).HandleMessage impl:api.FeatureLocalInterface.HandleMessage
+//@   requires r != nil && r.Feature != nil && r.address != nil && r.responseMsgCallback != nil
+//@   modifies map(gomap[string]map[model.MsgCounterType]*time.Timer), map(gomap[model.MsgCounterType]*time.Timer), map(gomap[model.MsgCounterType][]func(api.ResponseMessage)), timers
